@@ -320,7 +320,7 @@ def universe(quick, seed):
     r2 = lib.run_tlc('EdgeQLSem', 'EdgeQLSem_1.cfg', timeout=900, deadlock=False, heap='8g')
     outs, _, _ = SEM.parse_output(r2.output)
     sem = []
-    for term, _ty, _sz, _dup in outs:
+    for term, _ty, _sz, _dup, _ref in outs:
         try:
             sem.append(('sem', SEM.query_text(term)))
         except ValueError:
